@@ -1,6 +1,7 @@
 SPECIFICATION GenSpec
 CONSTANTS
   MaxB = 2
+  MinW = 2
   MaxW = 2
   NFiles = 1
   SecondHandle = FALSE
